@@ -44,6 +44,14 @@ func runSeatChecks(ctx *RunCtx, rep *Report, prop string, props []string, nHist,
 			local.Sample(&SeatCase{Max: max, Text: strings.Join(s.trace, " ")}, 3)
 		}
 	})
+	runCases(ctx, rep, 82, nHist/2, func(i int, r *rand.Rand, local *Report) {
+		max := 3 + r.Intn(8)
+		s := newSeatRun(prop, props, max, local, ctx.Seed, i, r)
+		runCollapse(s, r)
+		if i%5000 == 11 {
+			local.Sample(&SeatCase{Max: max, Text: strings.Join(s.trace, " ")}, 4)
+		}
+	})
 	if nBetween > 0 {
 		runCases(ctx, rep, 81, nBetween, func(i int, r *rand.Rand, local *Report) {
 			max := 3 + r.Intn(8)
